@@ -38,6 +38,7 @@ type sevt struct {
 	EndID  uint64              `json:"end_id,omitempty"`
 	UIDs   []int64             `json:"uids,omitempty"`
 	Types  []string            `json:"types,omitempty"`
+	TSs    []uint64            `json:"tss,omitempty"` // ack: timestamp of every message of the accepted pack
 	Store  *sysboot.StoreEvent `json:"store,omitempty"`
 	API    string              `json:"api,omitempty"`
 	Code   int                 `json:"code,omitempty"`
@@ -99,6 +100,7 @@ func newSuper(dir string, targets int) (*super, error) {
 				}
 				e.Types = append(e.Types, m.Type().String())
 				e.UIDs = append(e.UIDs, uidOf(m))
+				e.TSs = append(e.TSs, m.BeginTs())
 			}
 			s.log(e)
 		})
